@@ -148,6 +148,13 @@ def run(chk):
     while len(programs) < nprog:
         programs.append(gen.random_program(rng, alpha, rng.randint(5, 11), typed=fprofile.INPUTS))
     jobs = []
+    for calls in [p for p in fprofile.core_shapes() if "norm_2" not in str(p)]:
+        # the hand-shaped programs run from every point of the input grid
+        for n0 in (0, 1, 3):
+            for m0 in (0, 2):
+                method = {"phases": [{"name": "p0", "next": "p0", "calls": calls},
+                                     {"name": "p1", "next": "p0", "calls": fprofile.P1_CALLS}], "initial": "p0"}
+                jobs.append((method, {"<t>": 0, "<dt>": 1, fprofile.Y: [1, 2], fprofile.N: n0, fprofile.M: m0}, 2))
     for calls in programs:
         method = {"phases": [{"name": "p0", "next": rng.choice(["p0", "p0", "p1"]), "calls": calls},
                              {"name": "p1", "next": "p0", "calls": fprofile.P1_CALLS}], "initial": "p0"}
